@@ -82,25 +82,35 @@ class Model:
             raise RuntimeError("model process died on request: " + line[:200])
         return out.strip()
 
+    def _parse(self, line, conv):
+        out = self.raw(line)
+        toks = out.split()
+        if toks[0] == "err":
+            raise ModelError(" ".join(toks[1:]))
+        nd = int(toks[1])
+        dims = [int(t) for t in toks[2 : 2 + nd]]
+        rest = toks[2 + nd :]
+        if "|" in rest:
+            k = rest.index("|")
+            vals, mags = rest[:k], rest[k + 1 :]
+        else:
+            vals, mags = rest, []
+        return dims, [conv(t) for t in vals], [conv(t) for t in mags]
+
     def array(self, line):
         """Request returning an array: numpy float64 array, or raises ModelError(kind)."""
-        out = self.raw(line)
-        toks = out.split()
-        if toks[0] == "err":
-            raise ModelError(" ".join(toks[1:]))
-        nd = int(toks[1])
-        dims = [int(t) for t in toks[2 : 2 + nd]]
-        vals = np.array([dec_float(t) for t in toks[2 + nd :]], dtype=float)
-        return vals.reshape(dims) if nd else vals
+        dims, vals, _ = self._parse(line, dec_float)
+        vals = np.array(vals, dtype=float)
+        return vals.reshape(dims) if dims else vals
+
+    def array_mag(self, line):
+        """values and magnitude majorants (running sum of absolute values of all terms)"""
+        dims, vals, mags = self._parse(line, dec_float)
+        return np.array(vals, dtype=float).reshape(dims), np.array(mags, dtype=float).reshape(dims)
 
     def fractions(self, line):
-        out = self.raw(line)
-        toks = out.split()
-        if toks[0] == "err":
-            raise ModelError(" ".join(toks[1:]))
-        nd = int(toks[1])
-        dims = [int(t) for t in toks[2 : 2 + nd]]
-        return dims, [dec_fraction(t) for t in toks[2 + nd :]]
+        dims, vals, _ = self._parse(line, dec_fraction)
+        return dims, vals
 
     def close(self):
         try:
